@@ -13,6 +13,8 @@
 (*     event), double (the request is made twice), always (the request is made whatever  *)
 (*     the data says, i.e. also during the initialisation), cnd (scripted result of the  *)
 (*     cond_ callbacks for the requested event)]                                         *)
+(* cfg.hold[s]   : BOOLEAN - calc_output() returns UNDEF in state s: "leave the output     *)
+(*                 unchanged"; everything else (on_enter events included) is as usual     *)
 (* cfg.xchain[s] : BOOLEAN - the exit action of s sends an event to its own FSM when the *)
 (*     causing event's data has xc = 1: always a forbidden recursive event() call        *)
 (*     (property C11: the only permitted window is the entry action)                     *)
@@ -52,10 +54,12 @@ Result(ret, st, out, log) == [ret |-> ret, st |-> st, out |-> out, log |-> log]
 
 (* completion of an accepted transition: output update from calc_output (= the state),  *)
 (* then on_enter events carrying the new state and output                                *)
+NewOut(cfg, st, out) == IF cfg.hold[st] THEN out ELSE st
 Finish(cfg, st, out, log) ==
-    Result("true", st, st,
-           log \o (IF out # st /\ cfg.on_output THEN <<Rec("out", 0, 0, 0, out, st, 0)>> ELSE <<>>)
-               \o (IF cfg.on_enter[st] THEN <<Rec("on_enter", st, 0, 0, st, 0, 0)>> ELSE <<>>))
+    LET o == NewOut(cfg, st, out) IN
+    Result("true", st, o,
+           log \o (IF out # o /\ cfg.on_output THEN <<Rec("out", 0, 0, 0, out, o, 0)>> ELSE <<>>)
+               \o (IF cfg.on_enter[st] THEN <<Rec("on_enter", st, 0, 0, o, 0, 0)>> ELSE <<>>))
 
 (* a nested event() call made by the entry action of state st: [acc, target, log] *)
 Request(cfg, st, out, ch, d, log) ==
@@ -121,12 +125,14 @@ RejectChangesNothing(st, out, r) ==
     r.ret \in {"false", "unknown"} => /\ r.st = st /\ r.out = out
                                       /\ Kinds(r.log) \subseteq {"cond", "notrans"}
 (* the only visible state of an accepted event is the final one *)
-IntermediateInvisible(r) ==
+IntermediateInvisible(cfg, out, r) ==
     r.ret = "true" =>
         /\ \A i \in DOMAIN r.log : r.log[i].k = "on_enter" => r.log[i].n = r.st /\ r.log[i].a = r.out
-        /\ \A i \in DOMAIN r.log : r.log[i].k = "out" => r.log[i].b = r.st
+        /\ \A i \in DOMAIN r.log : r.log[i].k = "out" => r.log[i].b = r.out /\ r.log[i].a = out
         /\ \A i, j \in DOMAIN r.log : (r.log[i].k = "out" /\ r.log[j].k = "out") => i = j
-        /\ r.out = r.st
+        /\ r.out = NewOut(cfg, r.st, out)
+        \* the entered state announces itself even when it leaves the output alone
+        /\ (cfg.on_enter[r.st] => \E i \in DOMAIN r.log : r.log[i].k = "on_enter")
 (* every cond / enter / exit action sees the data of the event that caused it *)
 DataOfCausingEvent(r) ==
     \A i \in DOMAIN r.log : r.log[i].k \in {"cond", "enter", "exit", "after"} => r.log[i].tag = r.log[i].c
